@@ -1,13 +1,30 @@
 #!/bin/sh
 # re-evaluates every seeded change against the check of the property it breaks (quick tier); rewrites seeded/*/results.json and MATRIX.md
+# usage: tools/eval_all_seeded.sh [lanes]   - each lane works in its own scratch worktree of /repo (removed afterwards), /repo is not touched
 cd "$(dirname "$0")/.."
-for d in seeded/*/; do
-  id=$(basename $d)
-  [ -f $d/patch.diff ] || continue
-  prop=$(echo $id | cut -d- -f1)
-  rm -f $d/results.json
-  extra=""
-  case $id in C03-b) extra="C06";; C07-b|C02-b) extra="C02 C07";; C14-b) extra="C02";; C05-b) extra="C06";; C07-c) extra="C01";; esac
-  ./tools/eval_seeded.py $id $prop $extra 2>&1 | tail -3 | cut -c1-160
-done
+LANES=${1:-3}
+BASE=$(mktemp -d /tmp/evalwt.XXXXXX)
+ids=$(for d in seeded/*/; do [ -f $d/patch.diff ] && basename $d; done)
+lane() {
+  k=$1
+  W=$BASE/lane$k
+  git -C /repo worktree add -q --detach $W HEAD || exit 1
+  cp /repo/smpl_extract/filters/*.so $W/smpl_extract/filters/ 2>/dev/null
+  i=0
+  for id in $ids; do
+    i=$((i + 1))
+    [ $((i % LANES)) -eq $k ] || continue
+    prop=$(echo $id | cut -d- -f1)
+    rm -f seeded/$id/results.json
+    extra=""
+    case $id in C03-b) extra="C06";; C07-b|C02-b) extra="C02 C07";; C14-b) extra="C02";; C05-b|C05-d) extra="C06";; C07-c) extra="C01";; C05-c|C20-c) extra="C16";; esac
+    echo "$id: $(./tools/eval_seeded.py $id --in $W $prop $extra 2>&1 | tail -3 | cut -c1-150 | tr '\n' '|')"
+  done
+  git -C /repo worktree remove --force $W
+}
+k=0
+while [ $k -lt $LANES ]; do lane $k & k=$((k + 1)); done
+wait
+git -C /repo worktree prune
+rmdir $BASE 2>/dev/null
 /venv/bin/python tools/seeded_meta.py
